@@ -252,6 +252,9 @@ Gen(T) ==
          \* every tag value (declared, unknown, ill-kinded) with a fixed body; every body with every declared tag
          ({ TagWrap(T, tg, okbody, 1) : tg \in tagvals }
           \cup UNION { { TagWrap(T, T.tags[i], b, 1) : b \in UNION { Gen(T.vars[j]) : j \in DOMAIN T.vars } } : i \in DOMAIN T.tags }
+          \* tag absent, but another input name of some variant's tag field present
+          \cup UNION { { MkDict(<< <<MkStr(a), tg>>, <<MkStr("s_y"), MkInt(1)>> >>) : tg \in Range(T.tags),
+                          a \in Range(FieldByName(T.vars[i], T.tag).ins) \ {T.tag} } : i \in DOMAIN T.vars }
           \cup { MkDict(<< <<MkStr("s_y"), MkInt(1)>> >>),     \* tag absent
                  MkDict(<< <<MkStr(T.tk), T.tags[1]>> >>), MkDict(<< <<MkStr(T.ck), okbody>> >>),
                  MkDict(<< <<MkStr(T.tk), T.tags[1]>>, <<MkStr(T.ck), okbody>>, <<MkStr("s_zz"), MkInt(1)>> >>),
@@ -346,6 +349,10 @@ V3 == TCls("V3", << TagFld("s_v3"), Fld("s_y", TInt, DefVal(MkInt(6))), Fld("s_z
 V4 == TCls("V4", << Fld("s_y", TInt, NoDef), TagFld("s_v1") >>, <<"struct", "tuple">>, "struct")
 N1 == TCls("N1", << Fld("s_kind", TLit(<<MkInt(0)>>), DefVal(MkInt(0))), Fld("s_y", TInt, DefVal(MkInt(6))) >>, <<"struct">>, "struct")
 N2 == TCls("N2", << Fld("s_kind", TLit(<<MkInt(2)>>), DefVal(MkInt(2))), Fld("s_y", TInt, DefVal(MkInt(6))) >>, <<"struct">>, "struct")
+(* a variant that spells its tag field differently in data (field(rename='x')): the tag of an internally tagged union is   *)
+(* read and written under the tag's own name all the same; the alias alone is no tag                                      *)
+R1 == TCls("R1", << FldX("s_kind", TLit(<<MkStr("s_v1")>>), DefVal(MkStr("s_v1")), "F", <<"s_x">>, "s_x", "F", "T"),
+                    Fld("s_y", TInt, DefVal(MkInt(6))) >>, <<"struct">>, "struct")
 (* variants related by inheritance: VC is a subclass of VB (the concretiser derives it from VB's class) *)
 VB == TCls("VB", << TagFld("s_v1"), Fld("s_y", TInt, DefVal(MkInt(6))) >>, <<"struct">>, "struct")
 VC == [k |-> "cls", name |-> "VC", fs |-> << TagFld("s_v2"), Fld("s_y", TInt, DefVal(MkInt(6))), Fld("s_z", TInt, DefVal(MkInt(7))) >>,
@@ -353,7 +360,7 @@ VC == [k |-> "cls", name |-> "VC", fs |-> << TagFld("s_v2"), Fld("s_y", TInt, De
 TTagged(vs, lay) ==
   [k |-> "tagged", vars |-> vs, tag |-> "s_kind",
    tags |-> [i \in DOMAIN vs |-> FieldByName(vs[i], "s_kind").d.v], lay |-> lay, tk |-> "s_t", ck |-> "s_c"]
-TaggedLeaves == { TTagged(vs, lay) : vs \in { <<V1, V2>>, <<V1, V2, V3>>, <<V3, V1>>, <<V4, V2>>, <<N1, N2>>, <<VB, VC>>, <<VC, VB>> },
+TaggedLeaves == { TTagged(vs, lay) : vs \in { <<V1, V2>>, <<V1, V2, V3>>, <<V3, V1>>, <<V4, V2>>, <<N1, N2>>, <<VB, VC>>, <<VC, VB>>, <<R1, V2>> },
                                      lay \in {"int", "ext", "adj"} }
                 \* ... and under conditions (the shipped ListNotEmpty[...] is Annotated[List[...], len_range(min=1)])
                 \cup { TAnn(TSeq("list", TTagged(<<V1, V2>>, lay)), <<[k |-> "lenge", n |-> 1]>>) : lay \in {"int", "ext", "adj"} }
